@@ -29,7 +29,9 @@ break them, a change of the computed value does.
 
 NaN caveat (stated honestly): the laws need a LINEAR order.  IEEE floats with NaN are not one (every
 comparison with NaN is false, so `extendBy` is not even commutative there, see the example at the end);
-the harness excludes NaN coordinates from the reduction datasets, and the theorems say nothing about them.
+the reduction datasets of the MODEL tie are integer; the general exerciser does feed NaN points to the real
+`Box?f.extendBy(array)` (whose `if (p[i] < min[i])` never admits a NaN) and compares bitwise across partitions;
+the theorems say nothing about NaN coordinates.
 -/
 -- the normal-form proofs carry a fallback branch for the generic-template spelling of the C++; on the
 -- current source the first branch succeeds and the linters would report the fallback as unused
@@ -243,7 +245,7 @@ example :
 The hypothesis `[LinearOrder α]` is essential.  A model of IEEE comparison with one unordered value:
 `Fl.nan` plays NaN (`x < NaN` and `NaN < x` are both false).  On it the GENERATED `extendBy` is not
 commutative: `std::min (a, NaN) = a` but `std::min (NaN, a) = NaN`.  Float boxes with NaN coordinates are
-therefore outside the theorems above, and the harness keeps NaN out of the reduction datasets. -/
+therefore outside the theorems above (the model tie uses integer boxes). -/
 
 /-- a scalar type with one unordered value -/
 inductive Fl where
